@@ -340,7 +340,12 @@ fn prepare(sc: &Scenario, renderer: &str, rootp: &Path, tag: &str, tmp_root: &Pa
         if let Some(parent) = p.parent() {
             let _ = std::fs::create_dir_all(parent);
         }
-        if let Err(e) = std::fs::write(&p, text) {
+        let written = match d.unreadable.as_deref() {
+            Some("dangling") => std::os::unix::fs::symlink("no-such-target-of-this-link.md", &p),
+            Some(_) => std::fs::write(&p, b"# caf\xe9 \xff\xfe\n\n```scrut\n$ echo \xe9\n```\n"),
+            None => std::fs::write(&p, text),
+        };
+        if let Err(e) = written {
             obs.harness_error = Some(format!("write {}: {}", p.display(), e));
             return Err(obs);
         }
